@@ -302,6 +302,9 @@ type limits struct {
 	softTime int64 // 0 = none
 	stop     int   // 0 = no stop channel, 1 = channel never closed, 2 = closed before the start, 3 = closed after `stopSpin` spins
 	stopSpin int
+	// option-space variants of search.Go (zero value = the caller's own Counters and an Output writer)
+	noCnt bool // no WithCounters: the engine's default counters; the node count is read off the last info line
+	noOut bool // WithOutput(nil): no info lines at all
 }
 
 func (l limits) String() string {
@@ -323,18 +326,32 @@ func (l limits) String() string {
 	case 3:
 		s += fmt.Sprintf(" stop=closed-after-%d-spins", l.stopSpin)
 	}
+	if l.noCnt {
+		s += " counters=default"
+	}
+	if l.noOut {
+		s += " output=nil"
+	}
 	return s
 }
 
 type outcome struct {
 	score    Score
 	mv, pm   move.Move
-	nodes    int
+	nodes    int // -1: not reported (default counters and no parsable info line)
 	out      string
 	panicked string
 }
 
 var spinSink atomic.Uint64
+
+// A search that does not return cannot be interrupted from outside (the requests without a stop
+// channel are part of the option space): after hangAfter the harness reports it as a failing input,
+// writes the result file and ends, instead of hanging until the check's timeout.
+var (
+	hangAfter = 240 * time.Second
+	onHang    func(fen string, l limits)
+)
 
 // run performs one Go call on s with the limits, capturing the info lines; panics are caught.
 func run(s *search.Search, b *board.Board, l limits, w io.Writer) (oc outcome) {
@@ -344,7 +361,15 @@ func run(s *search.Search, b *board.Board, l limits, w io.Writer) (oc outcome) {
 		out = io.MultiWriter(&buf, w)
 	}
 	cnt := search.Counters{}
-	opts := []search.Option{search.WithOutput(out), search.WithCounters(&cnt), search.WithDepth(Depth(l.depth))}
+	opts := []search.Option{search.WithDepth(Depth(l.depth))}
+	if l.noOut {
+		opts = append(opts, search.WithOutput(nil))
+	} else {
+		opts = append(opts, search.WithOutput(out))
+	}
+	if !l.noCnt {
+		opts = append(opts, search.WithCounters(&cnt))
+	}
 	if l.nodes != -1 {
 		opts = append(opts, search.WithNodes(l.nodes))
 	}
@@ -376,6 +401,11 @@ func run(s *search.Search, b *board.Board, l limits, w io.Writer) (oc outcome) {
 			close(ch)
 		}()
 	}
+	if onHang != nil {
+		fen := b.FEN()
+		wd := time.AfterFunc(hangAfter, func() { onHang(fen, l) })
+		defer wd.Stop()
+	}
 	func() {
 		defer func() {
 			if p := recover(); p != nil {
@@ -387,6 +417,14 @@ func run(s *search.Search, b *board.Board, l limits, w io.Writer) (oc outcome) {
 	stopper.Wait()
 	oc.nodes = cnt.Nodes
 	oc.out = buf.String()
+	if l.noCnt {
+		// default counters: the final count is the one of the last info line (the line of the last
+		// completed iteration, or the abort notice)
+		oc.nodes = -1
+		if infos, err := parseInfos(oc.out); err == nil && len(infos) > 0 {
+			oc.nodes = infos[len(infos)-1].nodes
+		}
+	}
 	return
 }
 
@@ -1581,9 +1619,126 @@ func digest(s *search.Search) string {
 	return ""
 }
 
-type gameLog struct {
-	lines []string
-	final string
+// optVar is one point of the option space of search.Go that must not influence the result: the
+// caller's own Counters or the engine's default ones, an Output writer or none.
+type optVar struct{ noCnt, noOut bool }
+
+var optVars = [4]optVar{{false, false}, {true, false}, {false, true}, {true, true}}
+
+func (v optVar) String() string {
+	c, o := "own-counters", "writer"
+	if v.noCnt {
+		c = "default-counters"
+	}
+	if v.noOut {
+		o = "nil-output"
+	}
+	return c + "+" + o
+}
+
+func (v optVar) on(l limits) limits {
+	l.noCnt, l.noOut = v.noCnt, v.noOut
+	return l
+}
+
+// obs is everything one run lets an observer see in its option variant, plus the state digest.
+type obs struct {
+	res    string   // score, move, ponder move (and the panic text)
+	nodes  int      // -1: the variant reports no node count (default counters without output)
+	hasOut bool     // the variant has info lines
+	lines  []string // canonical info lines (time blanked)
+	last   int      // depth of the last info line, -1 when unknown
+	null   bool     // the null move was returned
+	digest string
+}
+
+func observe(s *search.Search, oc outcome, l limits) obs {
+	o := observeRun(oc, l)
+	o.digest = digest(s)
+	return o
+}
+
+// observeRun is observe without the state digest (hashing the tables costs as much as a small search).
+func observeRun(oc outcome, l limits) obs {
+	o := obs{res: fmt.Sprintf("score=%d move=%s ponder=%s", oc.score, oc.mv, oc.pm), nodes: oc.nodes, last: -1, null: oc.mv == 0}
+	if oc.panicked != "" {
+		o.res += " PANIC " + oc.panicked
+	}
+	if !l.noOut {
+		o.hasOut = true
+		infos, err := parseInfos(oc.out)
+		o.lines = canonLines(infos)
+		if len(infos) > 0 {
+			o.last = infos[len(infos)-1].depth
+		}
+		if err != nil {
+			o.lines = append(o.lines, "UNPARSABLE: "+err.Error())
+		}
+	}
+	return o
+}
+
+func (o obs) String() string {
+	s := o.res
+	if o.nodes >= 0 {
+		s += fmt.Sprintf(" nodes=%d", o.nodes)
+	}
+	if o.hasOut {
+		s += " | " + strings.Join(o.lines, " ; ")
+	}
+	return s + " | " + o.digest
+}
+
+// diffObs compares two observations on everything BOTH variants report; "" when they agree.
+// twin: b is the hard-budget reproduction of the soft-limited a and may add the abort notice of the
+// next iteration to the info lines.
+func diffObs(a, b obs, twin bool) string {
+	if a.res != b.res {
+		return "score/move/ponder"
+	}
+	if a.nodes >= 0 && b.nodes >= 0 && a.nodes != b.nodes {
+		return "node count"
+	}
+	if a.hasOut && b.hasOut {
+		lb := b.lines
+		if twin && len(lb) == len(a.lines)+1 && reAbort.MatchString(lb[len(lb)-1]) {
+			lb = lb[:len(a.lines)]
+		}
+		if strings.Join(a.lines, "\n") != strings.Join(lb, "\n") {
+			return "info lines"
+		}
+	}
+	if a.digest != "" && b.digest != "" && a.digest != b.digest {
+		return "state left behind (digest of tables, histories, generation)"
+	}
+	return ""
+}
+
+// engine is one prepared engine instance with one request: table size, warm-up searches, root, limits.
+type engine struct {
+	rt     *root
+	tt     int
+	warmOn []*root
+	l      limits
+}
+
+func (g *engine) mk() *search.Search {
+	s := search.New(g.tt)
+	for _, w := range g.warmOn {
+		run(s, w.build(), limits{depth: 4, nodes: 2500}, nil)
+	}
+	return s
+}
+
+func (g *engine) ops(name string) []string {
+	if name != "" {
+		name = "engine " + name + ": "
+	}
+	ops := []string{fmt.Sprintf("%snew tt=%d", name, g.tt)}
+	for _, w := range g.warmOn {
+		ops = append(ops, fmt.Sprintf("%swarmup %s ; go depth 4 nodes 2500", name, w.position()))
+	}
+	return append(ops, fmt.Sprintf("%s%s ; %s", name, g.rt.position(), g.l))
 }
 
 // slowWriter perturbs the timing of one instance (the info lines are written through it).
@@ -1599,25 +1754,56 @@ func (w *slowWriter) Write(p []byte) (int, error) {
 	return len(p), nil
 }
 
+// hookWriter calls f when the info line number `at` (0-based) is written: the engine that writes is
+// between two iterations at that moment (or just before its return).
+type hookWriter struct {
+	n, at int
+	f     func()
+}
+
+func (w *hookWriter) Write(p []byte) (int, error) {
+	if w.n == w.at && w.f != nil {
+		f := w.f
+		w.f = nil
+		f()
+	}
+	w.n++
+	return len(p), nil
+}
+
 type plyLimit struct {
 	depth int
 	nodes int
 }
 
-// playGame lets one fresh engine instance play a whole game against itself and logs everything
-// observable except the time field.
-func playGame(rt *root, tt int, sched []plyLimit, variant int) gameLog {
-	var lg gameLog
-	s := search.New(tt)
+type plyRec struct {
+	fen string
+	o   obs
+}
+
+// gameVar is the way one instance of a determinism game is run: timing perturbation and option variant.
+type gameVar struct {
+	perturb int // 0 none, 1 open stop channel + sleeping writer, 2 soft time that never expires + sleeps
+	ov      optVar
+}
+
+func (g gameVar) String() string {
+	return [...]string{"plain", "open stop channel, sleeping writer", "soft time 2^40, random sleeps"}[g.perturb] + ", " + g.ov.String()
+}
+
+// playGame lets one engine instance (fresh, or warmed by searches of other roots) play a whole game
+// against itself and records everything observable except the time field.
+func playGame(rt *root, tt int, warm []*root, sched []plyLimit, gv gameVar) (recs []plyRec, final string) {
+	s := (&engine{tt: tt, warmOn: warm}).mk()
 	b := rt.build()
 	for p, pl := range sched {
 		legal := implutil.Legal(b)
 		if len(legal) == 0 || b.FiftyCnt >= 100 || b.Threefold() >= 3 {
 			break
 		}
-		l := limits{depth: pl.depth, nodes: pl.nodes}
+		l := gv.ov.on(limits{depth: pl.depth, nodes: pl.nodes})
 		var w io.Writer
-		switch variant {
+		switch gv.perturb {
 		case 1:
 			l.stop = 1 // a stop channel that is never closed
 			w = &slowWriter{}
@@ -1628,20 +1814,13 @@ func playGame(rt *root, tt int, sched []plyLimit, variant int) gameLog {
 			}
 		}
 		oc := run(s, b, l, w)
-		infos, err := parseInfos(oc.out)
-		if err != nil || oc.panicked != "" {
-			lg.lines = append(lg.lines, fmt.Sprintf("ply %d: ERROR %v %s", p, err, oc.panicked))
-			break
-		}
-		lg.lines = append(lg.lines, fmt.Sprintf("ply %d %s: score=%d move=%s ponder=%s nodes=%d | %s | %s", p, b.FEN(), oc.score, oc.mv, oc.pm, oc.nodes,
-			strings.Join(canonLines(infos), " ; "), digest(s)))
-		if oc.mv == 0 || !contains(legal, oc.mv) {
+		recs = append(recs, plyRec{fen: b.FEN(), o: observe(s, oc, l)})
+		if oc.panicked != "" || oc.mv == 0 || !contains(legal, oc.mv) {
 			break
 		}
 		b.MakeMove(oc.mv)
 	}
-	lg.final = b.FEN()
-	return lg
+	return recs, b.FEN()
 }
 
 // battery runs a fixed series of follow-up searches on s and returns everything observable: the
@@ -1670,16 +1849,39 @@ func battery(s *search.Search, rt *root, others []*root) []string {
 	return out
 }
 
+// followUp is the light version of the battery used in the dense sweeps (the digests of the two
+// instances have been compared already): ONE follow-up search of the root, everything observable
+// (the variant with default counters reads its count off the info lines).
+func followUp(s *search.Search, rt *root, v optVar) []string {
+	l := optVar{noCnt: v.noCnt}.on(limits{depth: 4, nodes: 1500})
+	oc := run(s, rt.build(), l, nil)
+	return []string{rt.position() + " " + limits{depth: 4, nodes: 1500}.String() + " -> " + observeRun(oc, l).String()}
+}
+
 func (e *env) c08() {
 	e.collectRoots(e.c.Pick(40, 140))
 	e.rootHistogram()
-	e.r.Rule = "(a) determinism: three fresh engine instances play the same self-play game (<= 60 plies, tables carried over, per-ply depth/node limits) CONCURRENTLY with all other games on a machine saturated by spinning goroutines; instance 2 additionally has an open stop channel and a sleeping output writer, instance 3 a soft time that never expires and random sleeps; everything observable except the time field must be identical; (b) soft == hard: search with a soft node limit ends after N nodes -> an identically prepared instance with hard budget N gives the same (score, move, ponder), the same info lines (time blanked; the hard run may add the abort notice of the next iteration), exactly N nodes, and the same state behind (battery of 4-5 follow-up searches compared in full, plus the hook digest when /repo provides it); (c) node counter <= hard budget in every run; (d) the same in PONDER searches (WithNodes(N) together with WithPonderHit: channel never signalled / message waiting before the start / signalled after a delay; bounded by a stop channel closed after 4-20 ms): Counters.Nodes <= N on return and the move is legal or null-only-if-final; non-trivial = (a) game of >= 10 plies, (b) soft-limited run that really ended at the soft limit; distinct by (root, limits, table size, warm-up)"
-	rng := e.c.Rng
+	e.r.Rule = "every experiment runs over the option space of search.Go {own Counters | default counters (count read off the info lines)} x {Output writer | nil} x {fresh | warmed engine}; observations are compared on everything both variants report, the state digest always. " +
+		"(a) determinism: three engine instances play the same self-play game (<= 60 plies, tables carried over, per-ply depth/node limits) CONCURRENTLY with all other games on a machine saturated by spinning goroutines; instance 1 is the reference (own counters, writer), the others rotate through the option variants and the perturbations (open stop channel + sleeping writer; soft time that never expires + sleeps); " +
+		"(a') separate engines do not influence each other: engines A, B(, C) with node-limited requests, each first run SOLO; then B is searched to completion from inside A's Output.Write at a chosen info line of A (C likewise inside B), and separately all are started in concurrent goroutines; each engine's observation must equal its solo run (the first cases run on a single goroutine while nothing else is searching); " +
+		"(b) soft == hard: search with a soft node limit ends after N nodes -> an identically prepared instance with hard budget exactly N gives the same (score, move, ponder), the same info lines (the hard run may add the abort notice of the next iteration), exactly N nodes and the same state behind (hook digest + battery of follow-up searches compared in full; in the dense class sweep: hook digest + one follow-up search); when the soft run's variant reports no count, N is taken from an identically prepared reference engine and the two soft runs must agree as well; random roots/limits, plus for EVERY root of the classes {drawn by the clock (FEN clock >= 100 / played up to 100), third occurrence through a played history, checkmate, stalemate, single reply, in check, ordinary} EVERY soft limit S in 1..80 and a sparse tail; " +
+		"(c) node counter <= hard budget in every run: every k in 0..K on the sweep roots, every k in 0..80 (+ sparse) on the class roots, in all option variants; " +
+		"(d) the same in PONDER searches (WithNodes(N) together with WithPonderHit, bounded by a stop channel). " +
+		"non-trivial = (a) game of >= 10 plies, (a') run whose solo searches printed >= 2 info lines, (b) soft-limited run that really ended at the soft limit, or twin on a final root with S below the iteration count; distinct by (root, limits, table size, warm-up, variants)"
 	if digest(search.New(32000)) != "" {
 		e.r.Notes = append(e.r.Notes, "search.VerifDigest hook present: persistent state compared by digest as well")
 	} else {
 		e.r.Notes = append(e.r.Notes, "search.VerifDigest hook absent: state left behind compared through follow-up searches only")
 	}
+	classRoots := e.classRoots(e.c.Pick(2, 8))
+	multis := e.genMulti()
+	// quiet phase: the first interleaved cases on this goroutine alone, nothing else is searching
+	nQuiet := e.c.Pick(12, 40)
+	for _, m := range multis[:nQuiet] {
+		m.quiet = true
+		m.exec()
+	}
+	e.reportMulti(multis[:nQuiet])
 	// CPU load
 	stopLoad := make(chan struct{})
 	var loadWG sync.WaitGroup
@@ -1701,12 +1903,29 @@ func (e *env) c08() {
 			}
 		}()
 	}
-	// (a) games
+	e.c08games()
+	parallel(len(multis)-nQuiet, func(i int) { multis[nQuiet+i].exec() })
+	e.reportMulti(multis[nQuiet:])
+	e.c08twins(nil)
+	close(stopLoad)
+	loadWG.Wait()
+	e.c08twins(classRoots)
+	e.c08sweep(classRoots)
+	e.c08ponder()
+}
+
+// (a) determinism games
+func (e *env) c08games() {
+	rng := e.c.Rng
+	const inst = 3
 	type game struct {
 		rt    *root
 		tt    int
+		warm  []*root
 		sched []plyLimit
-		logs  [3]gameLog
+		gv    [inst]gameVar
+		recs  [inst][]plyRec
+		final [inst]string
 	}
 	nGames := e.c.Pick(16, 100)
 	games := make([]*game, nGames)
@@ -1719,71 +1938,713 @@ func (e *env) c08() {
 			}
 		}
 		gm := &game{rt: rt, tt: ttSizes[g%3]}
+		if g%2 == 1 {
+			for k := 1 + rng.IntN(2); k > 0; k-- {
+				gm.warm = append(gm.warm, e.roots[rng.IntN(len(e.roots))])
+			}
+		}
 		for p := 0; p < 60; p++ {
 			gm.sched = append(gm.sched, plyLimit{depth: 2 + rng.IntN(5), nodes: 300 + rng.IntN(e.c.Pick(2500, 9000))})
 		}
+		for i := 1; i < inst; i++ {
+			gv := gameVar{perturb: i, ov: optVars[(g+i)%4]}
+			if gv.perturb == 1 && gv.ov.noOut {
+				gv.perturb = 2
+			}
+			gm.gv[i] = gv
+		}
 		games[g] = gm
 	}
-	parallel(nGames*3, func(i int) {
-		gm := games[i/3]
-		gm.logs[i%3] = playGame(gm.rt, gm.tt, gm.sched, i%3)
+	parallel(nGames*inst, func(i int) {
+		gm := games[i/inst]
+		gm.recs[i%inst], gm.final[i%inst] = playGame(gm.rt, gm.tt, gm.warm, gm.sched, gm.gv[i%inst])
 	})
 	for _, gm := range games {
-		e.r.Evaluations += len(gm.logs[0].lines)
-		e.r.Count("game-plies", len(gm.logs[0].lines))
+		e.r.Evaluations += len(gm.recs[0]) * inst
+		e.r.Count("game-plies", len(gm.recs[0]))
 		e.r.Count("games", 1)
-		if len(gm.logs[0].lines) >= 10 {
+		if len(gm.warm) > 0 {
+			e.r.Count("games:warmed-engine", 1)
+		} else {
+			e.r.Count("games:fresh-engine", 1)
+		}
+		if len(gm.recs[0]) >= 10 {
 			e.r.Nontrivial(fmt.Sprintf("game|%s|tt=%d|%v", gm.rt.position(), gm.tt, gm.sched[:3]))
 		}
-		for v := 1; v < 3; v++ {
-			a, b := gm.logs[0], gm.logs[v]
-			n := len(a.lines)
-			if len(b.lines) < n {
-				n = len(b.lines)
+		for v := 1; v < inst; v++ {
+			e.r.Count("determinism-runs:"+gm.gv[v].ov.String(), len(gm.recs[v]))
+			a, b := gm.recs[0], gm.recs[v]
+			n := len(a)
+			if len(b) < n {
+				n = len(b)
 			}
-			diff := -1
+			diff, what := -1, ""
 			for i := 0; i < n; i++ {
-				if a.lines[i] != b.lines[i] {
-					diff = i
+				if a[i].fen != b[i].fen {
+					diff, what = i, "position reached"
+					break
+				}
+				if w := diffObs(a[i].o, b[i].o, false); w != "" {
+					diff, what = i, w
 					break
 				}
 			}
-			if diff < 0 && (len(a.lines) != len(b.lines) || a.final != b.final) {
-				diff = n
+			if diff < 0 && (len(a) != len(b) || gm.final[0] != gm.final[v]) {
+				diff, what = n, "length of the game"
 			}
 			if diff >= 0 {
 				ia, ib := "<end>", "<end>"
-				if diff < len(a.lines) {
-					ia = a.lines[diff]
+				if diff < len(a) {
+					ia = a[diff].fen + " " + a[diff].o.String()
 				}
-				if diff < len(b.lines) {
-					ib = b.lines[diff]
+				if diff < len(b) {
+					ib = b[diff].fen + " " + b[diff].o.String()
 				}
-				e.fail(common.Mismatch{Property: "C08", Kind: "failing-input",
-					Ops:  []string{fmt.Sprintf("new tt=%d", gm.tt), gm.rt.position(), fmt.Sprintf("selfplay schedule(depth,nodes)=%v", gm.sched[:diff+1]), fmt.Sprintf("first difference at ply %d between instance 1 and instance %d", diff, v+1)},
-					Impl: ib, Spec: ia, Note: "two engines in the same state given the same requests report different results"})
+				ops := (&engine{rt: gm.rt, tt: gm.tt, warmOn: gm.warm}).ops("")
+				ops = append(ops[:len(ops)-1], gm.rt.position(), fmt.Sprintf("selfplay schedule(depth,nodes)=%v", gm.sched[:diff+1]),
+					fmt.Sprintf("instance 1: %s", gm.gv[0]), fmt.Sprintf("instance %d: %s", v+1, gm.gv[v]), fmt.Sprintf("first difference at ply %d: %s", diff, what))
+				e.fail(common.Mismatch{Property: "C08", Kind: "failing-input", Ops: ops,
+					Impl: ib, Spec: ia, Note: "two engines in the same state given the same requests report different results: " + what})
+				e.r.Count("FAILED:game-instance:"+gm.gv[v].ov.String(), 1)
 			}
 		}
 	}
-	if len(games) > 0 && len(games[0].logs[0].lines) > 0 {
-		e.r.Sample(map[string]any{"game": games[0].rt.position(), "ply0": games[0].logs[0].lines[0]}, 2)
+	if len(games) > 0 && len(games[0].recs[0]) > 0 {
+		e.r.Sample(map[string]any{"game": games[0].rt.position(), "ply0": games[0].recs[0][0].o.String()}, 2)
 	}
-	// (b) soft == hard
-	type sh struct {
-		rt     *root
-		tt     int
-		soft   int
-		depth  int
-		warmOn []int
-		others []*root
-		fails  []common.Mismatch
-		nontr  bool
-		ended  string
-		evals  int
+}
+
+// ---- (a') several engines in one process
+
+// multi is one experiment with 2..3 engines: solo runs, then either the nested schedule (engine i+1
+// searched to completion inside engine i's Output.Write at info line hook[i]) or concurrent goroutines.
+type multi struct {
+	engs       []*engine
+	hook       []int // raw draw; reduced modulo the number of info lines of the solo run
+	concurrent bool
+	quiet      bool
+	lines      int // fewest info lines among the solo runs of the hooked engines
+	evals      int
+	fails      []common.Mismatch
+}
+
+func (m *multi) defaults() (n int) {
+	for _, g := range m.engs {
+		if g.l.noCnt {
+			n++
+		}
 	}
-	nSH := e.c.Pick(400, 4000)
-	cases := make([]*sh, nSH)
-	for i := range cases {
+	return
+}
+
+func (m *multi) exec() {
+	n := len(m.engs)
+	solo := make([]obs, n)
+	for i, g := range m.engs {
+		solo[i] = observe2(g.mk(), g, nil)
+	}
+	m.evals += n
+	at := make([]int, n)
+	m.lines = 1 << 30
+	for i := range m.engs {
+		if k := len(solo[i].lines); solo[i].hasOut && k > 0 {
+			at[i] = m.hook[i] % k
+			if i+1 < n && k < m.lines {
+				m.lines = k
+			}
+		}
+	}
+	ss := make([]*search.Search, n)
+	for i, g := range m.engs {
+		ss[i] = g.mk()
+	}
+	got := make([]obs, n)
+	var ops []string
+	names := "ABC"
+	for i, g := range m.engs {
+		ops = append(ops, g.ops(names[i:i+1])...)
+	}
+	if m.concurrent {
+		ops = append(ops, "all engines started in concurrent goroutines")
+		var wg sync.WaitGroup
+		start := make(chan struct{})
+		for i := range m.engs {
+			wg.Add(1)
+			go func() {
+				defer wg.Done()
+				<-start
+				got[i] = observe2(ss[i], m.engs[i], nil)
+			}()
+		}
+		close(start)
+		wg.Wait()
+	} else {
+		for i := 0; i+1 < n; i++ {
+			ops = append(ops, fmt.Sprintf("engine %c is searched to completion inside engine %c's Output.Write when %c writes its info line #%d", names[i+1], names[i], names[i], at[i]))
+		}
+		var start func(i int)
+		start = func(i int) {
+			var w io.Writer
+			if i+1 < n {
+				w = &hookWriter{at: at[i], f: func() { start(i + 1) }}
+			}
+			got[i] = observe2(ss[i], m.engs[i], w)
+		}
+		start(0)
+	}
+	m.evals += n
+	for i := range m.engs {
+		if what := diffObs(solo[i], got[i], false); what != "" {
+			m.fails = append(m.fails, common.Mismatch{Property: "C08", Kind: "failing-input",
+				Ops:  append(append([]string{}, ops...), fmt.Sprintf("engine %c compared with its SOLO run (same preparation, same request)", names[i])),
+				Impl: got[i].String(), Spec: solo[i].String(),
+				Note: "an engine's result depends on what a separate engine instance in the same process does: " + what})
+		}
+	}
+}
+
+func observe2(s *search.Search, g *engine, w io.Writer) obs {
+	return observe(s, run(s, g.rt.build(), g.l, w), g.l)
+}
+
+// genMulti draws the multi-engine experiments: node-limited requests (hard, soft, both as datagen
+// does, or depth only), every option variant, fresh and warmed engines, chains of 2 or 3 engines.
+func (e *env) genMulti() []*multi {
+	rng := e.c.Rng
+	lim := func() limits {
+		l := limits{depth: MaxPlies, nodes: -1}
+		switch rng.IntN(6) {
+		case 0, 1:
+			l.nodes = 300 + rng.IntN(5000)
+		case 2:
+			l.soft = 100 + rng.IntN(3000)
+		case 3:
+			l.soft = 100 + rng.IntN(2000)
+			l.nodes = l.soft * (2 + rng.IntN(4))
+		case 4:
+			l.nodes = 300 + rng.IntN(5000)
+			l.depth = 3 + rng.IntN(6)
+		case 5:
+			l.depth = 2 + rng.IntN(4)
+		}
+		return l
+	}
+	nI, nC := e.c.Pick(150, 1200), e.c.Pick(60, 500)
+	var out []*multi
+	for c := 0; c < nI+nC; c++ {
+		m := &multi{concurrent: c >= nI}
+		n := 2
+		if rng.IntN(10) < 3 {
+			n = 3
+		}
+		for i := 0; i < n; i++ {
+			g := &engine{rt: e.roots[rng.IntN(len(e.roots))], tt: ttSizes[rng.IntN(3)], l: lim()}
+			if rng.IntN(2) == 0 {
+				for k := 1 + rng.IntN(2); k > 0; k-- {
+					g.warmOn = append(g.warmOn, e.roots[rng.IntN(len(e.roots))])
+				}
+			}
+			// two thirds with the default counters; the hooked engines need their writer
+			v := optVar{noCnt: rng.IntN(3) != 0, noOut: rng.IntN(3) == 0}
+			if !m.concurrent && i+1 < n {
+				v.noOut = false
+			}
+			g.l = v.on(g.l)
+			m.engs = append(m.engs, g)
+			m.hook = append(m.hook, rng.IntN(1<<20))
+		}
+		out = append(out, m)
+	}
+	return out
+}
+
+func (e *env) reportMulti(ms []*multi) {
+	for _, m := range ms {
+		kind := "interleaved"
+		if m.concurrent {
+			kind = "concurrent"
+		}
+		e.r.Evaluations += m.evals
+		e.r.Count(kind+"-runs", 1)
+		e.r.Count(fmt.Sprintf("%s-runs:%d-engines-with-default-counters", kind, m.defaults()), 1)
+		if m.quiet {
+			e.r.Count(kind+"-runs:single-goroutine-phase", 1)
+		}
+		for _, g := range m.engs {
+			e.r.Count("multi-engine:"+optVar{g.l.noCnt, g.l.noOut}.String(), 1)
+			if len(g.warmOn) > 0 {
+				e.r.Count("multi-engine:warmed", 1)
+			} else {
+				e.r.Count("multi-engine:fresh", 1)
+			}
+		}
+		if m.concurrent || m.lines >= 2 {
+			var key []string
+			for _, g := range m.engs {
+				key = append(key, strings.Join(g.ops(""), "|"))
+			}
+			e.r.Nontrivial(fmt.Sprintf("multi|%s|%v|%s", kind, m.hook, strings.Join(key, "||")))
+		}
+		if !m.concurrent && m.lines >= 2 && m.defaults() >= 2 {
+			e.r.Count("interleaved-runs:default-counters>=2,hook-before-last-line-possible", 1)
+		}
+		for _, f := range m.fails {
+			e.r.Fail(f)
+		}
+		if len(m.fails) > 0 {
+			if m.quiet {
+				kind += "-single-goroutine-phase"
+			}
+			e.r.Count("FAILED:"+kind, 1)
+		}
+	}
+	if len(ms) > 0 && ms[0].quiet {
+		var ops []string
+		for i, g := range ms[0].engs {
+			ops = append(ops, g.ops("ABC"[i:i+1])...)
+		}
+		e.r.Sample(map[string]any{"interleaved": ops}, 6)
+	}
+}
+
+// ---- root classes
+
+func classOf(rt *root) string {
+	switch {
+	case rt.drawn && len(rt.legal) == 0:
+		return "drawn+no-move"
+	case rt.three >= 3:
+		return "drawn-threefold"
+	case rt.fifty >= 100:
+		return "drawn-clock"
+	case rt.checkmate:
+		return "checkmate"
+	case len(rt.legal) == 0:
+		return "stalemate"
+	case len(rt.legal) == 1:
+		return "single-reply"
+	case rt.inCheck:
+		return "in-check"
+	}
+	return "ordinary"
+}
+
+var rootClasses = []string{"drawn-clock", "drawn-threefold", "drawn+no-move", "checkmate", "stalemate", "single-reply", "in-check", "ordinary"}
+
+func reverseUCI(m string) string { return m[2:4] + m[0:2] }
+
+// withClock rewrites the halfmove clock of a FEN (en-passant square dropped, move number raised so
+// that the clock is possible).
+func withClock(fen string, clock, slack int) string {
+	f := strings.Fields(fen)
+	if len(f) != 6 {
+		return fen
+	}
+	f[3] = "-"
+	f[4] = strconv.Itoa(clock)
+	if n, _ := strconv.Atoi(f[5]); n < clock/2+1+slack {
+		f[5] = strconv.Itoa(clock/2 + 1 + slack)
+	}
+	return strings.Join(f, " ")
+}
+
+// classRoots generates, per class, `per` roots from the shared position stream:
+//   - play-outs are scanned for positions in check, with a single reply, checkmated or stalemated
+//     (also one ply on: every move of a visited position is tried for a mate/stalemate successor);
+//     the roots are given as stream FEN + the moves played, so they carry a real history;
+//   - drawn by the clock: the clock of a non-final position set to 100.. in the FEN, or set to
+//     100-k and k reversible moves played;
+//   - third occurrence: a non-final position (often with a played history) extended by a cycle of
+//     reversible moves m1 m2 m1' m2' played two or three times.
+//
+// The hand-made roots of the non-ordinary classes (fixedRoots) are added on top.
+func (e *env) classRoots(per int) []*root {
+	rng := e.c.Rng
+	quota := map[string]int{}
+	for _, c := range rootClasses {
+		quota[c] = per
+	}
+	quota["drawn+no-move"] = (per + 1) / 2
+	var out []*root
+	seen := map[string]bool{}
+	add := func(rt *root, want string) bool {
+		if quota[want] <= 0 || !e.prepare(rt) || classOf(rt) != want || seen[rt.position()] {
+			return false
+		}
+		seen[rt.position()] = true
+		rt.name = want + ":" + rt.name
+		out = append(out, rt)
+		quota[want]--
+		return true
+	}
+	open := func() bool {
+		for _, c := range rootClasses {
+			if quota[c] > 0 && c != "drawn+no-move" && c != "stalemate" {
+				return true
+			}
+		}
+		return false
+	}
+	st := implutil.NewStream(e.c)
+	for i := len(st.Roots); i > 0; i-- { // skip the leading block of perft roots
+		st.Next()
+	}
+	cp := func(ms []string) []string { return append([]string{}, ms...) }
+	// tryClock / tryThreefold build the drawn roots from a non-final position given as fen+moves
+	tryClock := func(b *board.Board) {
+		if quota["drawn-clock"] <= 0 {
+			return
+		}
+		if rng.IntN(2) == 0 {
+			add(&root{name: "clock-in-fen", fen: withClock(b.FEN(), 100+rng.IntN(30), rng.IntN(40))}, "drawn-clock")
+			return
+		}
+		k := 1 + rng.IntN(6)
+		rt := &root{name: "clock-played", fen: withClock(b.FEN(), 100-k, rng.IntN(40))}
+		pb, err := board.FromFEN(rt.fen)
+		if err != nil {
+			return
+		}
+		for i := 0; i < k; i++ {
+			l := implutil.Legal(pb)
+			ok := false
+			for _, j := range rng.Perm(len(l)) {
+				r := pb.MakeMove(l[j])
+				if int(pb.FiftyCnt) == 100-k+i+1 && len(implutil.Legal(pb)) > 0 {
+					rt.moves = append(rt.moves, l[j].String())
+					ok = true
+					break
+				}
+				pb.UndoMove(l[j], r)
+			}
+			if !ok {
+				return
+			}
+		}
+		add(rt, "drawn-clock")
+	}
+	tryThreefold := func(fen string, moves []string) {
+		if quota["drawn-threefold"] <= 0 {
+			return
+		}
+		base := &root{fen: fen, moves: moves}
+		b := base.build()
+		if b == nil || b.FiftyCnt > 80 {
+			return
+		}
+		l1 := implutil.Legal(b)
+		for _, i := range rng.Perm(len(l1)) {
+			m1 := l1[i].String()
+			if len(m1) != 4 {
+				continue
+			}
+			b1 := (&root{fen: fen, moves: append(cp(moves), m1)}).build()
+			l2 := implutil.Legal(b1)
+			for _, j := range rng.Perm(len(l2)) {
+				m2 := l2[j].String()
+				if len(m2) != 4 {
+					continue
+				}
+				cyc := []string{m1, m2, reverseUCI(m1), reverseUCI(m2)}
+				for reps := 2; reps <= 3; reps++ {
+					ms := cp(moves)
+					for r := 0; r < reps; r++ {
+						ms = append(ms, cyc...)
+					}
+					rt := &root{name: fmt.Sprintf("cycle-x%d", reps), fen: fen, moves: ms}
+					if tb := rt.build(); tb == nil || tb.Threefold() < 3 {
+						continue
+					}
+					if add(rt, "drawn-threefold") {
+						return
+					}
+				}
+				break // one reply per first move is enough
+			}
+		}
+	}
+	visited := 0
+	hits := map[string]int{}
+	for tries := 0; open() && tries < 4000; tries++ {
+		fen, src := st.Next()
+		if a := e.bm.Batch([]string{"fen " + fen, "valid"}); !strings.HasPrefix(a[0], "ok") || len(a[1]) < 2 || a[1][0] != '1' {
+			continue
+		}
+		b, err := board.FromFEN(fen)
+		if err != nil || b.InvalidPieceCount() {
+			continue
+		}
+		var moves []string
+		for ply := 0; ply < 40; ply++ {
+			l := implutil.Legal(b)
+			visited++
+			cls := ""
+			switch {
+			case b.FiftyCnt >= 100 || b.Threefold() >= 3:
+				cls = "drawn"
+			case len(l) == 0 && b.InCheck(b.STM):
+				cls = "checkmate"
+			case len(l) == 0:
+				cls = "stalemate"
+			case len(l) == 1:
+				cls = "single-reply"
+			case b.InCheck(b.STM):
+				cls = "in-check"
+			default:
+				cls = "ordinary"
+			}
+			hits[cls]++
+			if cls == "drawn" {
+				break
+			}
+			if quota[cls] > 0 && (cls != "ordinary" || rng.IntN(8) == 0) {
+				add(&root{name: src + "+playout", fen: fen, moves: cp(moves)}, cls)
+			}
+			if len(l) == 0 {
+				break
+			}
+			// one ply on: mate / stalemate successors
+			if quota["checkmate"] > 0 || quota["stalemate"] > 0 {
+				for _, m := range l {
+					r := b.MakeMove(m)
+					n := len(implutil.Legal(b))
+					inCk := b.InCheck(b.STM)
+					b.UndoMove(m, r)
+					if n == 0 {
+						c2 := "stalemate"
+						if inCk {
+							c2 = "checkmate"
+						}
+						hits[c2+"-one-ply-on"]++
+						add(&root{name: src + "+playout+mating-move", fen: fen, moves: append(cp(moves), m.String())}, c2)
+						// the same final move played with the clock at 99: drawn by the clock AND without a move
+						add(&root{name: "clock-99+mating-move", fen: withClock(b.FEN(), 99, rng.IntN(40)), moves: []string{m.String()}}, "drawn+no-move")
+					}
+				}
+			}
+			if cls == "ordinary" && ply%4 == 1 {
+				tryClock(b)
+				tryThreefold(fen, cp(moves))
+			}
+			m := l[rng.IntN(len(l))]
+			moves = append(moves, m.String())
+			b.MakeMove(m)
+		}
+	}
+	// constructive: a bare king to move against king + queen (+ one more piece), random placements;
+	// the stalemated and checkmated ones are kept (stalemates are too rare in play-outs)
+	constructed := 0
+	for tries := 0; (quota["stalemate"] > 0 || quota["checkmate"] > 0) && tries < 40000; tries++ {
+		var sq [64]byte
+		put := func(p byte, edge bool) {
+			for {
+				i := rng.IntN(64)
+				if edge && rng.IntN(4) != 0 {
+					i = [...]int{0, 7, 56, 63, rng.IntN(8), 56 + rng.IntN(8), 8 * rng.IntN(8), 8*rng.IntN(8) + 7}[rng.IntN(8)]
+				}
+				if sq[i] == 0 && !((p == 'P' || p == 'p') && (i < 8 || i >= 56)) {
+					sq[i] = p
+					return
+				}
+			}
+		}
+		put('k', true)
+		put('K', false)
+		put('Q', false)
+		if rng.IntN(2) == 0 {
+			put("RBNPQ"[rng.IntN(5)], false)
+		}
+		var sb strings.Builder
+		for r := 7; r >= 0; r-- {
+			empty := 0
+			for f := 0; f < 8; f++ {
+				if p := sq[r*8+f]; p != 0 {
+					if empty > 0 {
+						sb.WriteByte(byte('0' + empty))
+						empty = 0
+					}
+					sb.WriteByte(p)
+				} else {
+					empty++
+				}
+			}
+			if empty > 0 {
+				sb.WriteByte(byte('0' + empty))
+			}
+			if r > 0 {
+				sb.WriteByte('/')
+			}
+		}
+		fen := fmt.Sprintf("%s b - - %d %d", sb.String(), rng.IntN(60), 40+rng.IntN(40))
+		b, err := board.FromFEN(fen)
+		if err != nil || b.InvalidPieceCount() || b.InCheck(b.STM.Flip()) || len(implutil.Legal(b)) != 0 {
+			continue
+		}
+		constructed++
+		if b.InCheck(b.STM) {
+			add(&root{name: "constructed", fen: fen}, "checkmate")
+		} else {
+			add(&root{name: "constructed", fen: fen}, "stalemate")
+		}
+	}
+	e.r.Count("classgen:constructed-final-positions", constructed)
+	e.r.Count("classgen:positions-visited", visited)
+	for c, n := range hits {
+		e.r.Count("classgen:visited:"+c, n)
+	}
+	// the hand-made corner cases of the classes on top
+	for _, rt := range e.roots {
+		if c := classOf(rt); c != "ordinary" && !seen[rt.position()] {
+			seen[rt.position()] = true
+			out = append(out, rt)
+		}
+	}
+	for _, rt := range out {
+		e.r.Count("class-roots:"+classOf(rt), 1)
+		if len(rt.moves) > 0 {
+			e.r.Count("class-roots:with-played-history", 1)
+		}
+	}
+	return out
+}
+
+func softBucket(s int) string {
+	switch {
+	case s <= 8:
+		return "S1-8"
+	case s <= 62:
+		return "S9-62"
+	case s <= 80:
+		return "S63-80"
+	case s <= 600:
+		return "S81-600"
+	}
+	return "S601+"
+}
+
+// ---- (b) soft == hard twins
+
+type sh struct {
+	rt           *root
+	tt           int
+	soft         int
+	depth        int
+	warmOn       []*root
+	others       []*root
+	vSoft, vHard optVar
+	class        string // "" for the random cases
+	fails        []common.Mismatch
+	nontr        bool
+	ended        string
+	ref          bool
+	evals        int
+}
+
+func (c *sh) exec() {
+	g := &engine{rt: c.rt, tt: c.tt, warmOn: c.warmOn}
+	g.l = c.vSoft.on(limits{depth: c.depth, nodes: -1, soft: c.soft})
+	ops := g.ops("A")
+	fail := func(impl, spec, note string) {
+		c.fails = append(c.fails, common.Mismatch{Property: "C08", Kind: "failing-input", Ops: append([]string{}, ops...), Impl: impl, Spec: spec, Note: note})
+	}
+	sA := g.mk()
+	ocA := run(sA, c.rt.build(), g.l, nil)
+	oA := observe(sA, ocA, g.l)
+	c.evals++
+	if ocA.panicked != "" || (oA.hasOut && len(oA.lines) > 0 && strings.HasPrefix(oA.lines[len(oA.lines)-1], "UNPARSABLE")) {
+		fail(oA.String(), "", "soft-limited run failed")
+		return
+	}
+	base := oA
+	if oA.nodes < 0 {
+		// the variant reports no node count: N comes from an identically prepared reference engine
+		// (own counters, writer), which must agree with the variant on everything else
+		c.ref = true
+		gr := *g
+		gr.l = optVars[0].on(g.l)
+		sR := gr.mk()
+		oR := observeRun(run(sR, c.rt.build(), gr.l, nil), gr.l) // the digests are compared between A and B
+		c.evals++
+		ops = append(ops, gr.ops("R")...)
+		if what := diffObs(oR, oA, false); what != "" {
+			fail(oA.String(), oR.String(), "the same request in two option variants of search.Go gives different results: "+what)
+			return
+		}
+		base = oR
+	}
+	N := base.nodes
+	// "ended at the soft limit": stopped below the depth limit with more than `soft` nodes and a move
+	endedSoft := !base.null && N > c.soft && (!base.hasOut || (base.last < c.depth && base.last < MaxPlies-1))
+	switch {
+	case endedSoft:
+		c.ended = "soft-limit"
+		c.nontr = true
+	case c.rt.final && c.soft < c.depth && c.soft < MaxPlies-1:
+		// a final root: one node per iteration, the soft limit is passed long before the last iteration
+		c.ended = "final-root-soft-limit-below-iterations"
+		c.nontr = true
+	default:
+		c.ended = "depth-limit-or-final"
+	}
+	gh := *g
+	gh.l = c.vHard.on(limits{depth: c.depth, nodes: N})
+	ops = append(ops, fmt.Sprintf("=> ended after N=%d nodes; identically prepared instance:", N))
+	ops = append(ops, gh.ops("B")...)
+	sB := gh.mk()
+	oB := observe(sB, run(sB, c.rt.build(), gh.l, nil), gh.l)
+	c.evals++
+	if oB.nodes > N {
+		fail(strconv.Itoa(oB.nodes), "<= "+strconv.Itoa(N), "hard budget exceeded")
+	}
+	if what := diffObs(base, oB, true); what != "" {
+		fail(oB.String(), base.String(), "hard-budget run does not reproduce the soft-limited run ("+c.ended+"): "+what)
+		return
+	}
+	if c.ref {
+		if what := diffObs(oA, oB, true); what != "" {
+			fail(oB.String(), oA.String(), "hard-budget run does not reproduce the soft-limited run ("+c.ended+"): "+what)
+			return
+		}
+	}
+	var ba, bb []string
+	if c.class != "" {
+		ba, bb = followUp(sA, c.rt, c.vSoft), followUp(sB, c.rt, c.vSoft)
+	} else {
+		ba, bb = battery(sA, c.rt, c.others), battery(sB, c.rt, c.others)
+	}
+	c.evals += len(ba)
+	for k := range ba {
+		if k >= len(bb) || ba[k] != bb[k] {
+			ib := "<missing>"
+			if k < len(bb) {
+				ib = bb[k]
+			}
+			ops = append(ops, fmt.Sprintf("follow-up search #%d on both instances", k))
+			fail(ib, ba[k], "state left behind differs: a follow-up search distinguishes the soft-limited instance from its hard-budget reproduction")
+			break
+		}
+	}
+}
+
+func (e *env) c08twins(classRoots []*root) {
+	rng := e.c.Rng
+	var cases []*sh
+	warmSet := func(rt *root) []*root {
+		var ws []*root
+		for k := 1 + rng.IntN(3); k > 0; k-- {
+			ws = append(ws, e.roots[rng.IntN(len(e.roots))])
+		}
+		if rng.IntN(2) == 0 {
+			ws[0] = rt
+		}
+		return ws
+	}
+	// random roots and limits
+	nRandom := e.c.Pick(400, 4000)
+	if classRoots != nil {
+		nRandom = 0
+	}
+	for i := nRandom; i > 0; i-- {
 		c := &sh{rt: e.roots[rng.IntN(len(e.roots))], tt: ttSizes[rng.IntN(3)], depth: 4 + rng.IntN(9)}
 		switch rng.IntN(4) {
 		case 0:
@@ -1793,142 +2654,152 @@ func (e *env) c08() {
 		default:
 			c.soft = 1 + rng.IntN(e.c.Pick(6000, 20000))
 		}
+		if rng.IntN(8) == 0 {
+			c.depth = MaxPlies // no depth limit, as `go nodes` / datagen
+		}
 		if rng.IntN(2) == 0 {
-			for k := 1 + rng.IntN(3); k > 0; k-- {
-				c.warmOn = append(c.warmOn, rng.IntN(len(e.roots)))
-			}
-			if rng.IntN(2) == 0 {
-				c.warmOn[0] = indexOf(e.roots, c.rt)
-			}
+			c.warmOn = warmSet(c.rt)
 		}
+		c.vSoft, c.vHard = optVars[rng.IntN(4)], optVars[rng.IntN(4)]
 		c.others = []*root{e.roots[rng.IntN(len(e.roots))], e.roots[rng.IntN(len(e.roots))]}
-		cases[i] = c
+		cases = append(cases, c)
 	}
-	parallel(nSH, func(i int) {
-		c := cases[i]
-		ops := []string{fmt.Sprintf("new tt=%d", c.tt)}
-		mk := func() *search.Search {
-			s := search.New(c.tt)
-			for _, w := range c.warmOn {
-				run(s, e.roots[w].build(), limits{depth: 4, nodes: 2500}, nil)
-			}
-			return s
+	// every class root x every soft limit in 1..80, then sparse
+	for ri, rt := range classRoots {
+		var softs []int
+		for s := 1; s <= 80; s++ {
+			softs = append(softs, s)
 		}
-		for _, w := range c.warmOn {
-			ops = append(ops, fmt.Sprintf("warmup root#%d (%s) depth 4 nodes 2500", w, e.roots[w].position()))
+		for _, s := range []int{100, 150, 250, 400, 700, 1200} {
+			softs = append(softs, s+rng.IntN(s/2))
 		}
-		lSoft := limits{depth: c.depth, nodes: -1, soft: c.soft}
-		ops = append(ops, c.rt.position(), lSoft.String())
-		sA := mk()
-		ocA := run(sA, c.rt.build(), lSoft, nil)
-		infA, errA := parseInfos(ocA.out)
-		c.evals++
-		if errA != nil || ocA.panicked != "" {
-			c.fails = append(c.fails, common.Mismatch{Property: "C08", Kind: "failing-input", Ops: ops, Impl: ocA.out + ocA.panicked, Note: "soft-limited run failed"})
-			return
-		}
-		N := ocA.nodes
-		lastDepth := -1
-		if len(infA) > 0 {
-			lastDepth = infA[len(infA)-1].depth
-		}
-		// "ended at the soft limit": stopped below the depth limit with more than `soft` nodes and a move
-		endedSoft := ocA.mv != 0 && N > c.soft && lastDepth < c.depth && lastDepth < MaxPlies-1
-		if endedSoft {
-			c.ended = "soft-limit"
-			c.nontr = true
-		} else {
-			c.ended = "depth-limit-or-final"
-		}
-		lHard := limits{depth: c.depth, nodes: N}
-		ops = append(ops, fmt.Sprintf("=> ended after N=%d nodes; identically prepared instance:", N), lHard.String())
-		sB := mk()
-		ocB := run(sB, c.rt.build(), lHard, nil)
-		infB, _ := parseInfos(ocB.out)
-		c.evals++
-		if ocB.nodes > N {
-			c.fails = append(c.fails, common.Mismatch{Property: "C08", Kind: "failing-input", Ops: ops, Impl: strconv.Itoa(ocB.nodes), Spec: "<= " + strconv.Itoa(N), Note: "hard budget exceeded"})
-		}
-		a := fmt.Sprintf("score=%d move=%s ponder=%s nodes=%d", ocA.score, ocA.mv, ocA.pm, ocA.nodes)
-		b := fmt.Sprintf("score=%d move=%s ponder=%s nodes=%d", ocB.score, ocB.mv, ocB.pm, ocB.nodes)
-		if a != b {
-			c.fails = append(c.fails, common.Mismatch{Property: "C08", Kind: "failing-input", Ops: ops, Impl: b, Spec: a, Note: "hard-budget run does not reproduce the soft-limited run (" + c.ended + ")"})
-			return
-		}
-		la, lb := canonLines(infA), canonLines(infB)
-		if len(lb) == len(la)+1 && !infB[len(infB)-1].full {
-			lb = lb[:len(la)]
-		}
-		if strings.Join(la, "\n") != strings.Join(lb, "\n") {
-			c.fails = append(c.fails, common.Mismatch{Property: "C08", Kind: "failing-input", Ops: ops, Impl: strings.Join(lb, " ; "), Spec: strings.Join(la, " ; "), Note: "info lines differ between the soft-limited run and its hard-budget reproduction"})
-			return
-		}
-		ba := battery(sA, c.rt, c.others)
-		bb := battery(sB, c.rt, c.others)
-		c.evals += len(ba)
-		for k := range ba {
-			if k >= len(bb) || ba[k] != bb[k] {
-				ib := "<missing>"
-				if k < len(bb) {
-					ib = bb[k]
-				}
-				c.fails = append(c.fails, common.Mismatch{Property: "C08", Kind: "failing-input", Ops: append(ops, fmt.Sprintf("follow-up search #%d on both instances", k)), Impl: ib, Spec: ba[k],
-					Note: "state left behind differs: a follow-up search distinguishes the soft-limited instance from its hard-budget reproduction"})
-				break
+		if e.c.Thorough() {
+			for s := 81; s <= 300; s++ {
+				softs = append(softs, s)
 			}
 		}
-	})
-	close(stopLoad)
-	loadWG.Wait()
+		for _, s := range softs {
+			c := &sh{rt: rt, class: classOf(rt), tt: ttSizes[(ri+s)%3], soft: s, depth: MaxPlies}
+			if rng.IntN(4) == 0 {
+				c.depth = 4 + rng.IntN(9)
+			}
+			switch rng.IntN(4) {
+			case 0:
+				c.warmOn = []*root{rt}
+			case 1:
+				c.warmOn = warmSet(rt)[:1]
+			}
+			c.vSoft, c.vHard = optVars[rng.IntN(4)], optVars[rng.IntN(4)]
+			cases = append(cases, c)
+		}
+	}
+	parallel(len(cases), func(i int) { cases[i].exec() })
 	for _, c := range cases {
 		e.r.Evaluations += c.evals
-		e.r.Count("softhard:"+c.ended, 1)
+		kind := "softhard"
+		if c.class != "" {
+			kind = "twin"
+			e.r.Count(fmt.Sprintf("twin:%s:%s", c.class, softBucket(c.soft)), 1)
+		}
+		e.r.Count(kind+":"+c.ended, 1)
 		if len(c.warmOn) > 0 {
-			e.r.Count("softhard:warmed", 1)
+			e.r.Count(kind+":warmed", 1)
+		} else {
+			e.r.Count(kind+":fresh", 1)
+		}
+		e.r.Count(kind+":soft-run:"+c.vSoft.String(), 1)
+		e.r.Count(kind+":hard-run:"+c.vHard.String(), 1)
+		if c.ref {
+			e.r.Count(kind+":N-from-reference-engine", 1)
+		}
+		if c.rt.drawn && len(c.rt.legal) > 0 && c.soft < c.depth && c.soft < MaxPlies-1 {
+			e.r.Count(kind+":drawn-root-with-moves,soft-limit-below-iterations", 1)
 		}
 		if c.nontr {
-			e.r.Nontrivial(fmt.Sprintf("sh|%s|tt=%d|soft=%d|depth=%d|%v", c.rt.position(), c.tt, c.soft, c.depth, c.warmOn))
+			e.r.Nontrivial(fmt.Sprintf("sh|%s|tt=%d|soft=%d|depth=%d|%d|%v%v", c.rt.position(), c.tt, c.soft, c.depth, len(c.warmOn), c.vSoft, c.vHard))
 		}
 		for _, f := range c.fails {
 			e.r.Fail(f)
 		}
+		if len(c.fails) > 0 {
+			e.r.Count("FAILED:"+kind+":"+c.class+":"+softBucket(c.soft), 1)
+		}
 	}
-	// (c) budget sweep: every k in 0..K on a few roots, counter <= k
+}
+
+// ---- (c) budget sweep: every k in 0..K on a few roots, every k in 0..80 (+ sparse) on the class
+// roots, in every option variant: the count the variant reports is <= k, the result is legal
+func (e *env) c08sweep(classRoots []*root) {
+	rng := e.c.Rng
 	K := e.c.Pick(300, 3000)
 	sw := e.roots
 	if len(sw) > e.c.Pick(8, 40) {
 		sw = sw[:e.c.Pick(8, 40)]
 	}
 	type bj struct {
-		rt   *root
-		k, d int
-		tt   int
-		got  int
-		pan  string
+		rt    *root
+		l     limits
+		tt    int
+		warm  bool
+		class string
+		oc    outcome
 	}
 	var bjs []*bj
 	for ri, rt := range sw {
 		for k := 0; k <= K; k++ {
-			bjs = append(bjs, &bj{rt: rt, k: k, d: 1 + rng.IntN(7), tt: ttSizes[(ri+k)%3]})
+			bjs = append(bjs, &bj{rt: rt, tt: ttSizes[(ri+k)%3], l: optVars[rng.IntN(2)].on(limits{depth: 1 + rng.IntN(7), nodes: k})})
+		}
+	}
+	for ri, rt := range classRoots {
+		ks := []int{}
+		for k := 0; k <= 80; k++ {
+			ks = append(ks, k)
+		}
+		for _, k := range []int{100, 150, 250, 400, 700} {
+			ks = append(ks, k+rng.IntN(k/2))
+		}
+		for _, k := range ks {
+			j := &bj{rt: rt, class: classOf(rt), tt: ttSizes[(ri+k)%3], warm: rng.IntN(3) == 0, l: optVars[rng.IntN(4)].on(limits{depth: MaxPlies, nodes: k})}
+			if rng.IntN(3) == 0 {
+				j.l.depth = 1 + rng.IntN(7)
+			}
+			bjs = append(bjs, j)
 		}
 	}
 	parallel(len(bjs), func(i int) {
 		j := bjs[i]
-		oc := run(search.New(j.tt), j.rt.build(), limits{depth: j.d, nodes: j.k}, nil)
-		j.got, j.pan = oc.nodes, oc.panicked
+		g := &engine{rt: j.rt, tt: j.tt, l: j.l}
+		if j.warm {
+			g.warmOn = []*root{j.rt}
+		}
+		j.oc = run(g.mk(), j.rt.build(), j.l, nil)
 	})
 	for _, j := range bjs {
 		e.r.Evaluations++
 		e.r.Count("budget-sweep", 1)
-		if j.got > j.k || j.pan != "" {
-			e.r.Fail(common.Mismatch{Property: "C08", Kind: "failing-input", Ops: []string{fmt.Sprintf("new tt=%d", j.tt), j.rt.position(), limits{depth: j.d, nodes: j.k}.String()},
-				Impl: fmt.Sprintf("nodes=%d %s", j.got, j.pan), Spec: fmt.Sprintf("<= %d", j.k), Note: "node counter exceeds the hard budget"})
+		e.r.Count("budget-sweep:"+optVar{j.l.noCnt, j.l.noOut}.String(), 1)
+		if j.class != "" {
+			e.r.Count("budget-sweep:class:"+j.class, 1)
 		}
-		if j.got == j.k {
+		ops := []string{fmt.Sprintf("new tt=%d", j.tt)}
+		if j.warm {
+			ops = append(ops, j.rt.position(), "go depth 4 nodes 2500")
+		}
+		ops = append(ops, j.rt.position(), j.l.String())
+		if j.oc.nodes > j.l.nodes || j.oc.panicked != "" {
+			e.r.Fail(common.Mismatch{Property: "C08", Kind: "failing-input", Ops: ops,
+				Impl: fmt.Sprintf("nodes=%d %s", j.oc.nodes, j.oc.panicked), Spec: fmt.Sprintf("<= %d", j.l.nodes), Note: "node counter exceeds the hard budget"})
+		}
+		if j.class != "" {
+			if note := checkResult(j.rt, j.oc, false); note != "" {
+				e.r.Fail(common.Mismatch{Property: "C06", Kind: "failing-input", Ops: ops,
+					Impl: fmt.Sprintf("score=%d move=%s", j.oc.score, j.oc.mv), Note: "budget sweep on a class root: " + note})
+			}
+		}
+		if j.oc.nodes == j.l.nodes {
 			e.r.Count("budget-sweep:budget-exhausted", 1)
 		}
 	}
-	e.c08ponder()
 }
 
 // c08ponder: (d) the hard budget holds while pondering as well.  A ponder search ignores the depth
@@ -2049,6 +2920,21 @@ func main() {
 	defer e.bm.Close()
 	if a := e.bm.Ask(implutil.KeysLine()); a != "ok" {
 		panic("drv_board did not accept the keys: " + a)
+	}
+	if v, err := strconv.Atoi(os.Getenv("VERIF_SEARCH_HANG_S")); err == nil && v > 0 {
+		hangAfter = time.Duration(v) * time.Second
+	}
+	var hung atomic.Bool
+	onHang = func(fen string, l limits) {
+		if hung.Swap(true) {
+			return
+		}
+		e.mu.Lock()
+		e.r.Fail(common.Mismatch{Property: "C" + (*suite)[1:], Kind: "failing-input", Ops: []string{"position fen " + fen, l.String()},
+			Impl: fmt.Sprintf("no return after %v", hangAfter), Spec: "the search returns",
+			Note: "a search with these limits did not return (the engine's tables may have been warmed by earlier searches of the experiment); the suite was cut short here"})
+		e.r.Write(c)
+		os.Exit(0)
 	}
 	switch *suite {
 	case "c06":
